@@ -10,46 +10,49 @@ import (
 // Locker mirrors sync.Locker.
 type Locker = gosync.Locker
 
-// Pool and Map never block: the real ones do the work. Every operation is a scheduling point and, for the race
-// detector, a release and an acquire on one global clock (as for sync/atomic): a value published through a sync.Map
-// or handed over through a sync.Pool is ordered after the writes that prepared it, so code that synchronises this
-// way is never reported; a race that happens to be separated by unrelated Map / Pool operations goes unreported.
+// Pool and Map never block: the real ones do the work. For the race detector every operation is a release and an
+// acquire on one global clock (as for sync/atomic): a value published through a sync.Map or handed over through a
+// sync.Pool is ordered after the writes that prepared it, so code that synchronises this way is never reported; a race
+// that happens to be separated by unrelated Map / Pool operations goes unreported. The operations are NOT scheduling
+// points: they are what process-wide caches are made of, and a cache hit must look to the scheduler exactly like the
+// miss that filled it, or an execution could not be replayed in the same process (interleavings are explored at the
+// locks, channels, atomics and transports around them).
 type Map struct{ m gosync.Map }
 
-func (m *Map) Load(key any) (any, bool) { AtomicFence(); defer AtomicFence(); return m.m.Load(key) }
-func (m *Map) Store(key, value any)     { AtomicFence(); defer AtomicFence(); m.m.Store(key, value) }
+func (m *Map) Load(key any) (any, bool) { hbFence(); defer hbFence(); return m.m.Load(key) }
+func (m *Map) Store(key, value any)     { hbFence(); defer hbFence(); m.m.Store(key, value) }
 func (m *Map) LoadOrStore(key, value any) (any, bool) {
-	AtomicFence()
-	defer AtomicFence()
+	hbFence()
+	defer hbFence()
 	return m.m.LoadOrStore(key, value)
 }
 func (m *Map) LoadAndDelete(key any) (any, bool) {
-	AtomicFence()
-	defer AtomicFence()
+	hbFence()
+	defer hbFence()
 	return m.m.LoadAndDelete(key)
 }
-func (m *Map) Delete(key any) { AtomicFence(); defer AtomicFence(); m.m.Delete(key) }
+func (m *Map) Delete(key any) { hbFence(); defer hbFence(); m.m.Delete(key) }
 func (m *Map) Swap(key, value any) (any, bool) {
-	AtomicFence()
-	defer AtomicFence()
+	hbFence()
+	defer hbFence()
 	return m.m.Swap(key, value)
 }
 func (m *Map) CompareAndSwap(key, old, new any) bool {
-	AtomicFence()
-	defer AtomicFence()
+	hbFence()
+	defer hbFence()
 	return m.m.CompareAndSwap(key, old, new)
 }
 func (m *Map) CompareAndDelete(key, old any) bool {
-	AtomicFence()
-	defer AtomicFence()
+	hbFence()
+	defer hbFence()
 	return m.m.CompareAndDelete(key, old)
 }
 func (m *Map) Range(f func(key, value any) bool) {
-	AtomicFence()
-	defer AtomicFence()
-	m.m.Range(func(k, v any) bool { AtomicFence(); return f(k, v) })
+	hbFence()
+	defer hbFence()
+	m.m.Range(func(k, v any) bool { hbFence(); return f(k, v) })
 }
-func (m *Map) Clear() { AtomicFence(); defer AtomicFence(); m.m.Clear() }
+func (m *Map) Clear() { hbFence(); defer hbFence(); m.m.Clear() }
 
 // Pool mirrors sync.Pool (the New field included).
 type Pool struct {
@@ -58,8 +61,8 @@ type Pool struct {
 }
 
 func (p *Pool) Get() any {
-	AtomicFence()
-	defer AtomicFence()
+	hbFence()
+	defer hbFence()
 	if v := p.p.Get(); v != nil {
 		return v
 	}
@@ -69,7 +72,7 @@ func (p *Pool) Get() any {
 	return nil
 }
 
-func (p *Pool) Put(x any) { AtomicFence(); defer AtomicFence(); p.p.Put(x) }
+func (p *Pool) Put(x any) { hbFence(); defer hbFence(); p.p.Put(x) }
 
 // Mutex is a scheduler-aware sync.Mutex.
 type Mutex struct {
